@@ -2,6 +2,10 @@ import EaselModel.Msafile.AfaLemmas
 import EaselModel.Msafile.AfaWritable
 import EaselModel.Msafile.AfaIdem
 import EaselModel.Msafile.Digitize
+import EaselModel.Msafile.PhylipWritable
+import EaselModel.Msafile.PhylipIdem
+import EaselModel.Msafile.PhylipLemmas
+import EaselModel.Msafile.WriteLemmas
 /-! # C03 — writing an alignment and reading it back preserves it: property theorems
 
 Full statement (properties.jsonl): for every well-formed alignment, writing it in any of the ten formats and reading the
@@ -9,7 +13,7 @@ output back (declared or autodetected format, text or digital) yields an alignme
 the format can represent; output is deterministic, accepted by the reader, and re-writing the re-read alignment
 reproduces the same bytes.
 
-PARTIAL at this revision: the theorems cover aligned FASTA (declared format), text mode and digital mode with the
+PARTIAL at this revision: the round-trip theorems cover aligned FASTA and PHYLIP (sequential and interleaved; declared format), text mode and digital mode with the
 generated amino/DNA/RNA alphabets, for alignments of ANY size. `AfaTextWritable` / `AfaDigitalWritable` say what AFA
 can carry: ≥ 1 sequence, ≥ 1 column, names without blank/tab/NUL, descriptions that do not start with a blank and hold
 no NUL, no LF inside / CR at the end of a name line, no separate accessions (AFA prints them into the description),
@@ -86,5 +90,146 @@ def exMsa : Msa :=
 example : afaRead (afaCfg none) (splitLines (afaWrite none exMsa)) = (.ok (afaProject (afaCfg none) exMsa), []) := by decide +kernel
 example : (afaProject (afaCfg none) exMsa).sqdesc = exMsa.sqdesc := by decide +kernel
 example : afaWrite none (afaProject (afaCfg none) exMsa) = afaWrite none exMsa := by decide +kernel
+
+/-! ## ===== PHYLIP (sequential `phylips`, interleaved `phylip`) — begin =====
+
+`PhylipTextWritable` / `PhylipDigitalWritable` say what PHYLIP can carry through the strict reader (name width 10):
+≥ 1 sequence, ≥ 1 column, `nseq`, `alen` ≤ INT32_MAX (the header is parsed by `esl_mem_strtoi32`), names not empty and
+made of graphic characters (no blank), text residues upper-case letters / `-` / `*` / `?` (the characters the writer's
+rectification leaves alone and the text input map sends to themselves), digital rows well formed.
+`phylipProject` is what PHYLIP represents: names CUT TO TEN CHARACTERS (`%-10.10s`), the aligned rows, default weights. -/
+
+theorem phylip_write_deterministic (seq : Bool) (abc : Option Abc) (m₁ m₂ : Msa) (h : m₁ = m₂) :
+    phylipWrite seq abc m₁ = phylipWrite seq abc m₂ := by rw [h]
+
+/-- `" %d"` is read back by `esl_mem_strtoi32` -/
+theorem phylip_strtoi32_natDec (n : Nat) (h1 : 1 ≤ n) (hn : n ≤ 2147483647) : strtoi32 (natDec n) = .ok (n : Int) :=
+  strtoi32_natDec n h1 hn
+
+theorem phyDigSymOk_of (a : Abc) (ha : a = abcAmino ∨ a = abcDna ∨ a = abcRna) : phyDigSymOk a = true := by
+  rcases ha with h | h | h <;> subst h
+  · exact phyDigSymOk_amino
+  · exact phyDigSymOk_dna
+  · exact phyDigSymOk_rna
+
+/-- **sequential PHYLIP round trip, text mode** -/
+theorem phylips_roundtrip_text (m : Msa) (h : PhylipTextWritable m) :
+    phylipRead true (phylipCfg none) (splitLines (phylipWrite true none m)) = (.ok (phylipProject (phylipCfg none) m), []) :=
+  phylipsRead_write none (phylipCfg none) id _ m (phylipTextWritable_writable m h)
+
+/-- **sequential PHYLIP round trip, digital mode** (amino, DNA, RNA) -/
+theorem phylips_roundtrip_digital (a : Abc) (ha : a = abcAmino ∨ a = abcDna ∨ a = abcRna) (m : Msa) (h : PhylipDigitalWritable a m) :
+    phylipRead true (phylipCfg (some a)) (splitLines (phylipWrite true (some a) m))
+      = (.ok (phylipProject (phylipCfg (some a)) m), []) :=
+  phylipsRead_write (some a) (phylipCfg (some a)) (phyEnc a) _ m (phylipDigitalWritable_writable a (phyDigSymOk_of a ha) m h)
+
+/-- the general form -/
+theorem phylips_roundtrip (abc : Option Abc) (cfg : Cfg) (enc : UInt8 → UInt8) (txt : Nat → Bytes) (m : Msa)
+    (h : PhylipWritable abc cfg enc txt m) :
+    phylipRead true cfg (splitLines (phylipWrite true abc m)) = (.ok (phylipProject cfg m), []) :=
+  phylipsRead_write abc cfg enc txt m h
+
+/-- library-written sequential PHYLIP is accepted, holds exactly one alignment (the next read is eslEOF), and the
+    alignment read back is well formed -/
+theorem phylips_write_accepted (m : Msa) (h : PhylipTextWritable m) :
+    (∃ m', (phylipRead true (phylipCfg none) (splitLines (phylipWrite true none m))).1 = .ok m' ∧ m'.wellFormed = true) ∧
+    (phylipRead true (phylipCfg none) (phylipRead true (phylipCfg none) (splitLines (phylipWrite true none m))).2).1 = .eof := by
+  have hr := phylips_roundtrip_text m h
+  have hg := phylipRead_good true (phylipCfg none) ⟨by decide +kernel, by decide +kernel⟩ (splitLines (phylipWrite true none m))
+  rw [hr] at hg
+  refine ⟨⟨_, by rw [hr], hg⟩, ?_⟩
+  rw [hr]
+  rfl
+
+/-- **interleaved PHYLIP round trip, text mode** (first block with names, later blocks behind an empty line without) -/
+theorem phylip_roundtrip_text (m : Msa) (h : PhylipTextWritable m) :
+    phylipRead false (phylipCfg none) (splitLines (phylipWrite false none m)) = (.ok (phylipProject (phylipCfg none) m), []) :=
+  phylipRead_write none (phylipCfg none) id _ m (phylipTextWritable_writable m h)
+
+/-- **interleaved PHYLIP round trip, digital mode** (amino, DNA, RNA) -/
+theorem phylip_roundtrip_digital (a : Abc) (ha : a = abcAmino ∨ a = abcDna ∨ a = abcRna) (m : Msa) (h : PhylipDigitalWritable a m) :
+    phylipRead false (phylipCfg (some a)) (splitLines (phylipWrite false (some a) m))
+      = (.ok (phylipProject (phylipCfg (some a)) m), []) :=
+  phylipRead_write (some a) (phylipCfg (some a)) (phyEnc a) _ m (phylipDigitalWritable_writable a (phyDigSymOk_of a ha) m h)
+
+/-- the general form -/
+theorem phylip_roundtrip (abc : Option Abc) (cfg : Cfg) (enc : UInt8 → UInt8) (txt : Nat → Bytes) (m : Msa)
+    (h : PhylipWritable abc cfg enc txt m) :
+    phylipRead false cfg (splitLines (phylipWrite false abc m)) = (.ok (phylipProject cfg m), []) :=
+  phylipRead_write abc cfg enc txt m h
+
+/-- library-written interleaved PHYLIP is accepted, holds exactly one alignment, and the alignment read back is well formed -/
+theorem phylip_write_accepted (m : Msa) (h : PhylipTextWritable m) :
+    (∃ m', (phylipRead false (phylipCfg none) (splitLines (phylipWrite false none m))).1 = .ok m' ∧ m'.wellFormed = true) ∧
+    (phylipRead false (phylipCfg none) (phylipRead false (phylipCfg none) (splitLines (phylipWrite false none m))).2).1 = .eof := by
+  have hr := phylip_roundtrip_text m h
+  have hg := phylipRead_good false (phylipCfg none) ⟨by decide +kernel, by decide +kernel⟩ (splitLines (phylipWrite false none m))
+  rw [hr] at hg
+  refine ⟨⟨_, by rw [hr], hg⟩, ?_⟩
+  rw [hr]
+  rfl
+
+/-- **re-writing the re-read alignment reproduces the same bytes**, sequential and interleaved, text mode -/
+theorem phylip_rewrite_same_text (seq : Bool) (m : Msa) (h : PhylipTextWritable m) :
+    ∃ m', (phylipRead seq (phylipCfg none) (splitLines (phylipWrite seq none m))).1 = .ok m' ∧
+      phylipWrite seq none m' = phylipWrite seq none m := by
+  refine ⟨phylipProject (phylipCfg none) m, ?_, phylipWrite_project_text seq m h⟩
+  cases seq
+  · rw [phylip_roundtrip_text m h]
+  · rw [phylips_roundtrip_text m h]
+
+/-- … and in digital mode (amino, DNA, RNA) -/
+theorem phylip_rewrite_same_digital (seq : Bool) (a : Abc) (ha : a = abcAmino ∨ a = abcDna ∨ a = abcRna) (m : Msa)
+    (h : PhylipDigitalWritable a m) :
+    ∃ m', (phylipRead seq (phylipCfg (some a)) (splitLines (phylipWrite seq (some a) m))).1 = .ok m' ∧
+      phylipWrite seq (some a) m' = phylipWrite seq (some a) m := by
+  refine ⟨phylipProject (phylipCfg (some a)) m, ?_, phylipWrite_project_digital seq a m h⟩
+  cases seq
+  · rw [phylip_roundtrip_digital a ha m h]
+  · rw [phylips_roundtrip_digital a ha m h]
+
+/-- what PHYLIP preserves: names up to ten characters, and the aligned rows exactly -/
+theorem phylip_preserves_names_rows (m : Msa) (h : PhylipTextWritable m) :
+    (phylipProject (phylipCfg none) m).names = m.names.map (·.take 10) ∧ (phylipProject (phylipCfg none) m).alen = m.alen ∧
+    ∀ i, i < m.nseq → (phylipProject (phylipCfg none) m).aseq.getD i [] = m.aseq.getD i [] := by
+  refine ⟨phylipProject_names _ m, rfl, ?_⟩
+  intro i hi
+  simp [phylipProject, phylipCfg, Cfg.digital, Msa.stored, h.dig, List.getD_eq_getElem?_getD, hi]
+
+/-! ### non-vacuity: 2 sequences, 61 columns (two lines per sequence), one name longer than ten characters -/
+
+def exPhy : Msa :=
+  { alen := 61, names := [[115, 101, 113, 49], [97, 98, 99, 100, 101, 102, 103, 104, 105, 106, 107, 108]],
+    aseq := [List.replicate 30 65 ++ [45] ++ List.replicate 30 67, List.replicate 60 71 ++ [63]],
+    wgt := [.dflt, .dflt] }
+
+theorem exPhy_writable : PhylipTextWritable exPhy :=
+  { dig := rfl, n1 := by decide, alen1 := by decide, nmax := by decide, amax := by decide
+    name_ok := by unfold phyNameOk; decide +kernel
+    row_ok := by decide +kernel }
+
+example : phylipRead true (phylipCfg none) (splitLines (phylipWrite true none exPhy))
+    = (.ok (phylipProject (phylipCfg none) exPhy), []) := by decide +kernel
+example : phylipRead false (phylipCfg none) (splitLines (phylipWrite false none exPhy))
+    = (.ok (phylipProject (phylipCfg none) exPhy), []) := by decide +kernel
+example : (phylipProject (phylipCfg none) exPhy).names = [[115, 101, 113, 49], [97, 98, 99, 100, 101, 102, 103, 104, 105, 106]] := by
+  decide +kernel
+
+/-- the same alignment digitised with the DNA alphabet (A=0 C=1 G=2 gap=4 missing=17) -/
+def exPhyDna : Msa :=
+  { digital := true, kp := 18, alen := 61, names := exPhy.names,
+    ax := [255 :: (List.replicate 30 0 ++ [4] ++ List.replicate 30 1) ++ [255], 255 :: (List.replicate 60 2 ++ [17]) ++ [255]],
+    wgt := [.dflt, .dflt] }
+
+theorem exPhyDna_writable : PhylipDigitalWritable abcDna exPhyDna :=
+  { dig := rfl, n1 := by decide, alen1 := by decide, nmax := by decide, amax := by decide
+    name_ok := by unfold phyNameOk; decide +kernel
+    row_ok := by decide +kernel }
+
+example : phylipRead false (phylipCfg (some abcDna)) (splitLines (phylipWrite false (some abcDna) exPhyDna))
+    = (.ok (phylipProject (phylipCfg (some abcDna)) exPhyDna), []) := by decide +kernel
+example : (phylipProject (phylipCfg (some abcDna)) exPhyDna).ax = exPhyDna.ax := by decide +kernel
+
+/-! ## ===== PHYLIP — end ===== -/
 
 end EaselModel.Props.C03
